@@ -43,6 +43,13 @@ PERMS = {(a, i): p for a in (1, 2) for i, p in ((9, "prpw"), (10, "prpw"), (11, 
 MALFORMED = [True, 5, None, "x", {"iid": 9, "value": 1}, {"aid": 1, "value": 1}, [], {"aid": 1}]
 
 
+
+def _raising_listener():
+    def bad(ev):
+        raise RuntimeError("a consumer's callback fails")
+
+    return bad
+
 def status_vectors(n, rng, quick):
     if n <= 2 or (n == 3 and not quick):
         yield from itertools.product(STATUSES, repeat=n)
@@ -70,7 +77,11 @@ class IpCase:
         self.ctx = ctx
         self.w = w
         self.notifications = []
+        # other consumers share the pairing: some of them raise in their callbacks (before and after the one judged here)
+        for _ in range(2):
+            w.pairing.dispatcher_connect(_raising_listener())
         w.pairing.dispatcher_connect(lambda ev: self.notifications.append(ev) if ev else None)
+        w.pairing.dispatcher_connect(_raising_listener())
         def fold_back(ev, pairing=w.pairing):
             # a realistic consumer (Home Assistant does this): fold every notified change into the pairing's model, so a later
             # write of the value the model already holds is still a write the accessory accepted
@@ -202,6 +213,27 @@ class IpCase:
                 return
 
 
+async def write_unconfirmed(case, writes, code, replay) -> None:
+    """The accessory answers a write with a status other than 204 No Content and NO body (500 / 503 with Content-Length 0, a
+    207 whose list is missing): nothing says the values were written, so the call fails - it is never presented as written,
+    and listeners are not told the new values."""
+    ctx = case.ctx
+    case.reply = (code, None)
+    case.notifications.clear()
+    try:
+        res = await asyncio.wait_for(case.w.pairing.put_characteristics(writes), 60)
+    except Exception:  # noqa: BLE001 - any failure of the call is in line with the statement
+        ctx.count("unconfirmed_writes_failed")
+        # the library hangs up on such a reply: let the session come back before the next case
+        await asyncio.sleep(0.5)
+        await asyncio.wait_for(case.w.connection.ensure_connection(), 60)
+        return
+    notified = {}
+    for ev in case.notifications:
+        notified.update(ev)
+    ctx.violation("unconfirmed-write-presented-as-written", f"put_characteristics({writes}) answered with HTTP {code} and no body returned {res!r}; listeners saw {notified!r}", replay)
+
+
 def read_replies(ids, vec, rng):
     """Yield (code, doc, script, global_status) for one status vector."""
     entries = []
@@ -259,6 +291,14 @@ async def ip_part(ctx) -> None:
                         ctx.case("ip-write", tuple(writes), json.dumps(doc, sort_keys=True), nontrivial=any(wvec),
                                  sample={"transport": "ip", "op": "write", "writes": writes, "reply_code": code, "reply": doc}, kind="ip-write")
                         await case.write(writes, code, doc, script, {"t": "ip", "op": "write", "writes": writes, "code": code, "doc": json.dumps(doc)})
+        for k, code in enumerate((500, 503, 207, 200, 202, 500, 207)):
+            idx += 1
+            if not ctx.mine(idx):
+                continue
+            writes = [[(1, 9, True)], [(1, 10, 50), (1, 9, False)]][k % 2]
+            writes = [w_ for w_ in writes if "pw" in PERMS.get((w_[0], w_[1]), "")] or [next((a, i, 1) for (a, i), p in sorted(PERMS.items()) if "pw" in p)]
+            ctx.case("ip-write-unconfirmed", code, tuple(writes), sample={"transport": "ip", "op": "write", "writes": writes, "reply_code": code, "reply": "<no body>"}, kind="ip-write-unconfirmed")
+            await write_unconfirmed(case, writes, code, {"t": "ip", "op": "write-unconfirmed", "writes": writes, "code": code})
         # request-wide status x full / partial / empty lists, malformed / duplicated / missing entries
         for k in range(ctx.pick(600, 80000)):
             idx += 1
@@ -347,8 +387,11 @@ def replay(ctx, d) -> None:
         try:
             await asyncio.wait_for(w.connection.ensure_connection(), 30)
             await w.pairing.list_accessories_and_characteristics()
-            doc = json.loads(d["doc"]) if d["doc"] != "null" else None
             ctx.case("replay")
+            if d["op"] == "write-unconfirmed":
+                await write_unconfirmed(case, [tuple(x) for x in d["writes"]], d["code"], d)
+                return
+            doc = json.loads(d["doc"]) if d["doc"] != "null" else None
             if d["op"] == "read":
                 script = doc.get("characteristics", []) if doc else []
                 await case.read([tuple(x) for x in d["ids"]], d["code"], doc, script, d.get("gs", 0), d)
